@@ -5,6 +5,7 @@ import Ivg.Model.Arc
 import Ivg.Gen.Tie.EncoderFields
 import Ivg.Gen.Tie.RendererFields
 import Ivg.Gen.Tie.LoggerForwards
+import Ivg.Gen.Tie.Code.RenderRegs
 import Ivg.Obligations
 /-!
 # C07 — selector clause: the Encoder and the Renderer report the same CSEL / NSEL
@@ -217,4 +218,14 @@ end Ivg.Props.C07
   Ivg.Props.C07.renderer_selectors_6bit, Ivg.Props.C07.encoder_selectors_6bit, Ivg.Props.C07.reads_report,
   Ivg.Props.C07.render_via_bytes, Ivg.Props.C07.render_direct_eq_via_bytes, Ivg.Props.C07.renderer_masks, Ivg.Props.C07.generator_same_calls,
   Ivg.Gen.Tie.encoder_fields_tie, Ivg.Gen.Tie.renderer_fields_tie,
-  Ivg.Gen.Tie.logger_forwards_tie, Ivg.Gen.Tie.logger_methods_tie]
+  Ivg.Gen.Tie.logger_forwards_tie, Ivg.Gen.Tie.logger_methods_tie,
+  -- regenerated code (translator, Ivg/Gen/Code) = model, for all inputs: RenderRegs
+  Ivg.Gen.Tie.renderer_CSel_code_tie,
+  Ivg.Gen.Tie.renderer_NSel_code_tie,
+  Ivg.Gen.Tie.renderer_SetCSel_code_tie,
+  Ivg.Gen.Tie.renderer_SetNSel_code_tie,
+  Ivg.Gen.Tie.renderer_SetLOD_code_tie,
+  Ivg.Gen.Tie.renderer_SetNReg_code_tie,
+  Ivg.Gen.Tie.positiveInfinity_code_tie,
+  Ivg.Gen.Tie.renderer_Reset_code_tie,
+  Ivg.Gen.Tie.renderer_Reset_code_tie_frame]
